@@ -25,6 +25,26 @@ def run(repo, rep):
     rep.rule('C01.O7', 'container bound: child loops are bounded by a declared length, a closed type set disjoint from '
              'what may follow, or the end of the PDU buffer', 5)
     rep.rule('C01.O8', 'decoder loops consume input on every iteration', 5)
-    check_roundtrip(lx, rep, 'C01')
+    rep.rule('C01.O10', 'decoders are functions of the bytes alone: no decode() (or helper it calls) writes a class-level or '
+             'module-level mutable object, so what one PDU decodes to does not depend on earlier PDUs', 1)
+    from ..pitfalls import shared_state_writes
+    from ..srcmodel import AnalysisError
+    dec_funcs = []
+    for c in lx.classes.values():
+        for nm in ('decode', 'sub_items'):
+            m = c.methods.get(nm)
+            if m is not None:
+                dec_funcs.extend(repo.helper_closure(m))
+    seen_k = set()
+    dec_funcs = [f for f in dec_funcs if not (f.key in seen_k or seen_k.add(f.key))]
+    p10 = shared_state_writes(repo, dec_funcs)
+    rep.check(not p10, 'C01.O10', 'pdu:decoders:stateless', 'pynetdicom2/pdu.py',
+              '%d decoder functions write no shared object' % len(dec_funcs), '; '.join(p10))
+    try:
+        check_roundtrip(lx, rep, 'C01')
+    except AnalysisError:
+        if not p10:
+            raise       # the shape is not understood and nothing else was found: cannot decide
+        # the stateful decoder is already reported; its shape (cache look-ups, early returns) need not be interpretable
     for a in lx.assumptions:
         rep.assume(a)
